@@ -251,6 +251,12 @@ pub fn run_on_this_thread(plan: &Plan, keep_trace: bool) -> RunOutput {
             }
             let step = sim.apply(a);
             log.push(format!("{:?} -> {:?} (twin {:?})", a, step, twin_steps[t]));
+            // the engine's own books (C11), among them "every needed node is within the height limit"
+            if matches!(step, Step::Ok { .. }) {
+                for l in crate::run::full_audit(&sim.state, matches!(a, XAct::Stabilise)) {
+                    viol.push(Violation { property: "C11", rule: "audit", at: log.len(), detail: l });
+                }
+            }
             if matches!(a, XAct::Stabilise) {
                 rounds += 1;
             }
